@@ -2,7 +2,7 @@
    (backend_req.rs) and the frontend's server for its requests
    (frontend_req_handler.rs).  Tied to the code by the correspondence families
    "fsrv", "proxy" and "psess". *)
-From VV Require Import Base.Bits Base.Rt Base.Val Gen.GenConsts Gen.GenLayout Gen.GenFns Model.Transport.
+From VV Require Import Base.Bits Base.Rt Base.Val Gen.GenConsts Gen.GenLayout Gen.GenFns Gen.GenFsAck Model.Transport.
 Open Scope string_scope.
 Open Scope list_scope.
 Open Scope N_scope.
@@ -21,25 +21,25 @@ Record fs_out := {
   fo_closed : list N }.
 
 Definition EINVAL : N := 22.
-Definition neg64 (e : N) : N := (2 ^ 64 - e) mod 2 ^ 64.
 
 Definition fs_fail (e : string) (closed : list N) : fs_out :=
   {| fo_result := VS e; fo_calls := []; fo_sent := []; fo_closed := closed |}.
 
+(* check_msg_size, REGENERATED (Gen.GenFsAck.fs_size_bad) *)
 Definition fs_check_size (h : VhostUserMsgHeader) (size expected : N) : bool :=
-  (VhostUserMsgHeader_get_size RB h =? expected) && negb (VhostUserMsgHeader_is_reply RB h)
-  && (VhostUserMsgHeader_get_version RB h =? 1) && (size =? expected).
+  negb (fs_size_bad (VhostUserMsgHeader_get_size RB h) (VhostUserMsgHeader_is_reply RB h) (VhostUserMsgHeader_get_version RB h) size expected).
 
 Definition fs_ack (reply_ack : bool) (h : VhostUserMsgHeader) (v : N) : list ptx :=
-  if reply_ack && VhostUserMsgHeader_is_need_reply RB h then
+  if fsack_written reply_ack (VhostUserMsgHeader_is_need_reply RB h) then      (* send_ack_message, regenerated *)
     [(VhostUserMsgHeader_write (VhostUserMsgHeader_new RB (VhostUserMsgHeader_request h) VhostUserHeaderFlag_REPLY 8)
       ++ VhostUserU64_write {| VhostUserU64_value := v |}, [])]
   else [].
 
 Definition hres_val (r : hres) : val :=
   match r with HOk n => VL [VS "ok"; VN n] | _ => VS "ReqHandlerError" end.
+(* the acknowledgement value per kind of handler result: send_ack_message's arms, REGENERATED *)
 Definition hres_ack (r : hres) : N :=
-  match r with HOk n => n | HErrno e => neg64 e | HErrOther => neg64 EINVAL end.
+  match r with HOk n => fsack_value_ok n | HErrno e => fsack_value_errno e | HErrOther => fsack_value_noerrno end.
 
 Definition mmap_val (m : VhostUserMMap) : list val :=
   [VN (VhostUserMMap_shmid m); VN (VhostUserMMap_fd_offset m); VN (VhostUserMMap_shm_offset m);
